@@ -94,10 +94,14 @@ pub broadcast group fl {
 }
 
 // R8: unary minus (this Verus rejects float negation); the wrapper IS the operator.
+// (core implements Neg for f64 and for &f64: the wrapper takes either)
+pub trait __NegArg: Sized { spec fn negv(self) -> f64; }
+impl __NegArg for f64 { open spec fn negv(self) -> f64 { self } }
+impl<'a> __NegArg for &'a f64 { open spec fn negv(self) -> f64 { *self } }
 #[verifier::external_body]
-pub fn __neg(x: f64) -> (r: f64)
-    ensures r == fneg(x),
-{ -x }
+pub fn __neg<T: __NegArg>(x: T) -> (r: f64)
+    ensures r == fneg(x.negv()),
+{ unimplemented!() }
 
 
 // f64 methods used by the extracted code: linked to uninterpreted functions (their IEEE facts, where
@@ -107,6 +111,19 @@ pub uninterp spec fn fminf(a: f64, b: f64) -> f64;
 pub uninterp spec fn fabsf(a: f64) -> f64;
 pub uninterp spec fn fisnan(a: f64) -> bool;
 pub uninterp spec fn fisfinite(a: f64) -> bool;
+pub uninterp spec fn fisinfinite(a: f64) -> bool;
+// IEEE classification facts (discharged for ALL f64 / all pairs by the loop-free Kani harness
+// `ieee_classification`): finite <=> neither NaN nor infinite; NaN and infinite exclude each other;
+// a pair is unordered exactly when one side is NaN; 0.0 is finite.
+pub axiom fn ax_ieee_class()
+    ensures
+        forall|a: f64| #[trigger] fisfinite(a) == (!fisnan(a) && !fisinfinite(a)),
+        forall|a: f64| #[trigger] fisnan(a) ==> !fisinfinite(a),
+        forall|a: f64, b: f64| (#[trigger] fcmp(a, b) is None) == (fisnan(a) || fisnan(b)),
+        fisfinite(0.0f64),
+        // (core::cmp::Ordering has exactly three variants: the Rust enum, opaque to this Verus)
+        forall|a: f64, b: f64| #[trigger] fcmp(a, b) is None || fcmp(a, b) == Some(core::cmp::Ordering::Less)
+            || fcmp(a, b) == Some(core::cmp::Ordering::Equal) || fcmp(a, b) == Some(core::cmp::Ordering::Greater);
 pub uninterp spec fn fpowf(a: f64, b: f64) -> f64;
 pub uninterp spec fn ftotalcmp(a: f64, b: f64) -> core::cmp::Ordering;
 pub assume_specification [f64::max] (a: f64, b: f64) -> (r: f64) ensures r == fmaxf(a, b);
@@ -114,6 +131,7 @@ pub assume_specification [f64::min] (a: f64, b: f64) -> (r: f64) ensures r == fm
 pub assume_specification [f64::abs] (a: f64) -> (r: f64) ensures r == fabsf(a);
 pub assume_specification [f64::is_nan] (a: f64) -> (r: bool) ensures r == fisnan(a);
 pub assume_specification [f64::is_finite] (a: f64) -> (r: bool) ensures r == fisfinite(a);
+pub assume_specification [f64::is_infinite] (a: f64) -> (r: bool) ensures r == fisinfinite(a);
 pub assume_specification [f64::powf] (a: f64, b: f64) -> (r: f64) ensures r == fpowf(a, b);
 pub assume_specification [f64::total_cmp] (a: &f64, b: &f64) -> (r: core::cmp::Ordering) ensures r == ftotalcmp(*a, *b);
 
